@@ -19,6 +19,9 @@ pub struct Scenario {
     /// (node index, number of GETs) per consumer connection
     pub consumers: Vec<(usize, usize)>,
     pub ticks: bool,
+    /// default policy for follower applications in the explored part (see cluster::EAGER_APPLY)
+    #[serde(default)]
+    pub eager: bool,
 }
 
 #[derive(Clone, Debug, Serialize, Deserialize)]
@@ -36,6 +39,9 @@ pub struct RunOut {
     pub gets: Vec<Vec<String>>,
     pub final_gets: Vec<String>,
     pub c23: Option<String>,
+    /// per decision, per option: is it the application of a committed command on a follower
+    #[serde(default)]
+    pub apply_opts: Vec<Vec<bool>>,
     pub quiet: bool,
     pub stuck_epilogue: bool,
     /// a node appended to a segment that the committed metadata (the Raft leader's applied
@@ -102,6 +108,7 @@ pub fn run_item(dir: &std::path::Path, it: &Item) -> Result<String, String> {
     let mut peak: HashMap<u64, u64> = HashMap::new();
     let mut stale_owner_write = false;
     let mut step_no = 0usize;
+    cluster::EAGER_APPLY.store(sc.eager, std::sync::atomic::Ordering::SeqCst);
     let (ds, quiet) = cluster::run(&cl, &it.prefix, sc.ticks, 1, 20_000, |cl, ch| {
         let now = sizes(cl);
         for (ni, (a, b)) in pre_sizes.iter().zip(now.iter()).enumerate() {
@@ -143,6 +150,7 @@ pub fn run_item(dir: &std::path::Path, it: &Item) -> Result<String, String> {
         pre_sizes = now;
         pre_views = views(cl);
     });
+    cluster::EAGER_APPLY.store(false, std::sync::atomic::Ordering::SeqCst);
     // epilogue: everything applied, one lease sync per node, then drain with GETs on node 1
     cl.raft.apply_all();
     let nodes = cl.nodes.clone();
@@ -175,6 +183,7 @@ pub fn run_item(dir: &std::path::Path, it: &Item) -> Result<String, String> {
     }
     out.overfull.sort();
     out.decisions = ds.iter().map(|d| (d.options.len(), d.chosen, d.last_ready, d.desc.clone())).collect();
+    out.apply_opts = ds.iter().map(|d| d.options.iter().map(|o| matches!(o, Choice::Apply(_))).collect()).collect();
     for (pi, (_n, payloads)) in sc.producers.iter().enumerate() {
         let resp = parse_responses(&put_outs[pi].lock().unwrap());
         let mut acked = vec![];
@@ -253,14 +262,26 @@ pub fn scenarios(thorough: bool) -> Vec<Scenario> {
     for nodes in if thorough { vec![1usize, 2, 3] } else { vec![1usize, 2] } {
         for threshold in if thorough { vec![1u64, 2, 3, 4] } else { vec![1u64, 2] } {
             let last = nodes - 1;
-            v.push(Scenario { name: format!("n{}/th{}/P3+G", nodes, threshold), nodes, threshold, producers: vec![(0, vec![p("a1"), p("a2"), p("a3")])], consumers: vec![(last, 2)], ticks: false });
+            v.push(Scenario { name: format!("n{}/th{}/P3+G", nodes, threshold), nodes, threshold, producers: vec![(0, vec![p("a1"), p("a2"), p("a3")])], consumers: vec![(last, 2)], ticks: false, eager: false });
             if nodes > 1 {
                 // a sequential producer attached to a node that does not own the first segment:
                 // every PUT is forwarded on the strength of that node's (possibly lagging) metadata
-                v.push(Scenario { name: format!("n{}/th{}/P3@last+G", nodes, threshold), nodes, threshold, producers: vec![(last, vec![p("a1"), p("a2"), p("a3")])], consumers: vec![(0, 2)], ticks: false });
+                v.push(Scenario { name: format!("n{}/th{}/P3@last+G", nodes, threshold), nodes, threshold, producers: vec![(last, vec![p("a1"), p("a2"), p("a3")])], consumers: vec![(0, 2)], ticks: false, eager: false });
             }
-            v.push(Scenario { name: format!("n{}/th{}/P2+P1", nodes, threshold), nodes, threshold, producers: vec![(0, vec![p("a1"), p("a2")]), (last, vec![p("b1")])], consumers: vec![], ticks: false });
-            v.push(Scenario { name: format!("n{}/th{}/P2+P2+G/ticks", nodes, threshold), nodes, threshold, producers: vec![(0, vec![p("a1"), p("a2")]), (last, vec![p("b1"), p("b2")])], consumers: vec![(0, 2)], ticks: true });
+            v.push(Scenario { name: format!("n{}/th{}/P2+P1", nodes, threshold), nodes, threshold, producers: vec![(0, vec![p("a1"), p("a2")]), (last, vec![p("b1")])], consumers: vec![], ticks: false, eager: false });
+            v.push(Scenario { name: format!("n{}/th{}/P2+P2+G/ticks", nodes, threshold), nodes, threshold, producers: vec![(0, vec![p("a1"), p("a2")]), (last, vec![p("b1"), p("b2")])], consumers: vec![(0, 2)], ticks: true, eager: false });
+        }
+    }
+    // the same forwarded-producer programs with eager follower application as the default
+    // policy (every follower up to date unless the explorer delays it)
+    {
+        let p = |s: &str| s.to_string();
+        for nodes in if thorough { vec![2usize, 3] } else { vec![2usize] } {
+            for threshold in if thorough { vec![1u64, 2] } else { vec![1u64] } {
+                let last = nodes - 1;
+                v.push(Scenario { name: format!("n{}/th{}/P3@last+G/eager", nodes, threshold), nodes, threshold, producers: vec![(last, vec![p("a1"), p("a2"), p("a3")])], consumers: vec![(0, 2)], ticks: false, eager: true });
+                v.push(Scenario { name: format!("n{}/th{}/P3+G/eager", nodes, threshold), nodes, threshold, producers: vec![(0, vec![p("a1"), p("a2"), p("a3")])], consumers: vec![(last, 2)], ticks: false, eager: true });
+            }
         }
     }
     if !thorough {
@@ -268,7 +289,7 @@ pub fn scenarios(thorough: bool) -> Vec<Scenario> {
         // and the Raft leader are three different nodes, so a stale key can be forwarded to an
         // owner that has already applied the sealing
         let p = |s: &str| s.to_string();
-        v.insert(0, Scenario { name: "n3/th1/P3@last+G".into(), nodes: 3, threshold: 1, producers: vec![(2, vec![p("a1"), p("a2"), p("a3")])], consumers: vec![(0, 2)], ticks: false });
+        v.insert(0, Scenario { name: "n3/th1/P3@last+G".into(), nodes: 3, threshold: 1, producers: vec![(2, vec![p("a1"), p("a2"), p("a3")])], consumers: vec![(0, 2)], ticks: false, eager: false });
     }
     v
 }
@@ -328,6 +349,13 @@ pub fn check(prop: &str, tier: &str) -> i32 {
     for sc in scs.iter() {
         let ts = Instant::now();
         let bound = if sc.nodes == 1 && thorough { 2 } else { 1 };
+        // thorough tier, three nodes with a forwarded producer: a second deviation is allowed
+        // when both are application lags (a follower applies a committed command early /
+        // late) - the staleness patterns that need the producer's node, the owner and the
+        // Raft leader to disagree
+        let apply2 = thorough && sc.nodes == 3 && sc.threshold == 1 && sc.name.contains("P3@last");
+        let eager = sc.eager;
+        let per_sc_cap = if apply2 { per_sc_cap.max(300.0) } else { per_sc_cap };
         let mut work: Vec<Vec<usize>> = vec![vec![]];
         let mut count = 0u64;
         while !work.is_empty() {
@@ -390,7 +418,13 @@ pub fn check(prop: &str, tier: &str) -> i32 {
                         // the canonical first option; alternatives still count as a deviation
                         let cost = if d.2 { cost } else { devs_in(i) + 1 };
                         if cost > bound {
-                            continue;
+                            // lazy default: the deviation *is* an application; eager default: the
+                            // deviation is anything chosen while an application was due
+                            let is_apply = |k: usize, opt: usize| ro.apply_opts.get(k).and_then(|v| v.get(if eager { 0 } else { opt })).copied().unwrap_or(false);
+                            let earlier_all_apply = (0..i).filter(|k| ro.decisions[*k].1 != 0 && ro.decisions[*k].2).all(|k| is_apply(k, ro.decisions[k].1));
+                            if !(apply2 && cost <= 2 && earlier_all_apply && is_apply(i, alt)) {
+                                continue;
+                            }
                         }
                         let mut p: Vec<usize> = ro.decisions[..i].iter().map(|x| x.1).collect();
                         p.push(alt);
@@ -405,7 +439,7 @@ pub fn check(prop: &str, tier: &str) -> i32 {
                 break;
             }
         }
-        per_sc.insert(sc.name.clone(), json!({"schedules": count, "deviation_bound": bound}));
+        per_sc.insert(sc.name.clone(), json!({"schedules": count, "deviation_bound": bound, "second_deviation_if_both_are_application_lags": apply2}));
         if bad.len() >= 4 {
             break;
         }
